@@ -67,12 +67,20 @@ func main() {
 				fn(NewCtx(main, id, "collect"))
 			}()
 		}
-		anchors := main.collect
+		anchors := map[string]bool{}
+		for f := range main.collect {
+			anchors[f.FullName()] = true
+		}
 		main.collect = nil
 		main.wsCache, main.callers = nil, nil
-		var p2 *Prog
-		p2, normNotes = Normalise(main, LoadOpts{Repo: abs, Tags: defaultTags}, anchors)
-		main = p2
+		for round := 0; round < 2; round++ {
+			p2, notes := Normalise(main, LoadOpts{Repo: abs, Tags: defaultTags}, anchors)
+			normNotes = append(normNotes, notes...)
+			if p2 == main {
+				break
+			}
+			main = p2
+		}
 	}
 	loadT := time.Since(start)
 	exit := 0
